@@ -30,7 +30,9 @@ RESULT_CMP = ("pred", "spec", "acc", "stream", "evd", "pan")
 
 def result_prop(sweep, rule, expl, extra_tb=(), nontrivial=nt_parallel, cmp=RESULT_CMP):
     return {
-        "modes": [["sweep", sweep, "{seed}", "{tier}"]] + ([["sources", "{seed}", sweep]] if sweep in ("C01", "C02", "C03", "C04", "C06", "C07", "C10", "C13") else []),
+        # the sweep, the source battery, and a scaled-down repeat of the sweep with the process
+        # confined to one CPU (available_parallelism() == 1: every runner has a single worker)
+        "modes": [["sweep", sweep, "{seed}", "{tier}"]] + ([["sources", "{seed}", sweep]] if sweep in ("C01", "C02", "C03", "C04", "C06", "C07", "C10", "C13") else []) + ([["taskset=0", "sweep", sweep, "{seed}9", "quick"]] if sweep in ("C01", "C02", "C03", "C04", "C05", "C06", "C07", "C10") else []),
         "compare": cmp,
         "nontrivial": nontrivial,
         "rule": rule,
@@ -65,7 +67,10 @@ PROPS = {
     "C11": {
         "modes": [["l0", "{seed}", "{tier}"], ["sweep", "C11", "{seed}", "{tier}"], ["taskset=0", "sweep", "C11", "{seed}9", "quick"], ["taskset=0-2", "sweep", "C11", "{seed}7", "quick"]],
         "compare": ("pred", "spec", "acc", "stream"),
-        "l0_functions": ("chunksize", "runner", "nextchunk", "dospawn", "ofnat_cs", "spawn"),
+        "l0_functions": ("chunksize", "runner", "nextchunk", "ofnat_cs", "spawn"),
+        # C11's theorems speak about Exact(c) only: the settings functions are compared on the queries
+        # with an exact chunk (a retuned Auto/Min heuristic is C15's business, not an alarm here)
+        "l0_filter": (lambda q: q.startswith("ofnat_cs") or "exact:" in q or __import__("re").search(r" e\d+( |$)", q) is not None),
         "l0_nontrivial": ("chunksize", "runner", "nextchunk", "spawn"),
         "nontrivial": nt_parallel,
         "rule": "L0 as C15 (functions chunksize/runner/nextchunk/dospawn); end-to-end: random chains without eager sites, Exact(c) with c in {1, 2..12, 13..40, len, len+1} set at a random position, up to 16 threads, 70% under the deterministic scheduler (first workers progress before the spawner continues); oracle: every worker is handed c, every aligned block [kc,(k+1)c) is evaluated by one worker, source next() bursts are multiples of c; non-trivial = a runner ran and len>=2",
